@@ -88,6 +88,9 @@ def install_world(k, worlds):
                 return (0, 0)
             if w.E is None:
                 raise BoundExceeded()        # blocking forever
+            hook = getattr(k, "on_block", None)
+            if hook is not None:
+                hook()                      # (two-thread harness: the other thread runs while this one is blocked in waitpid)
             k.now = w.t0 + w.E              # blocks until the exit instant
         w.reaped = True
         return (pid, w.status())
@@ -215,6 +218,17 @@ def wait(ctx, role, tmo, exits, eintr, stolen=False, popen=False):
         n0 = k.naccess_total
         start = k.now
         w.t0, w.started = start, True
+        if popen and ctx.flag("status_collected_through_subprocess_first"):
+            # the child has exited and subprocess.Popen's own poll()/communicate() reaped it and stored the status (any status, 0
+            # included) before psutil's wait() is called: wait() answers with that status, at once, and keeps it
+            want_rc = w.expected()
+            p._Popen__subproc.returncode = want_rc
+            w.reaped = True
+            r = ctx.guard("popen-returncode-stored", p.wait, timeout)
+            ctx.prove(ctx.eq(r, want_rc) and ctx.eq(p.returncode, want_rc) and not k.sleeps, "popen-returncode-stored", detail=f"status collected by subprocess: {want_rc}; wait() -> {r!r}, returncode now {p.returncode!r}")
+            r2 = p.wait(timeout)
+            ctx.prove(ctx.eq(r2, want_rc), "cached-second-call", detail=f"second wait() -> {r2!r}")
+            return
         try:
             r, exc = p.wait(timeout), None
         except (_common.TimeoutExpired, ValueError) as e:
@@ -271,6 +285,50 @@ def wait(ctx, role, tmo, exits, eintr, stolen=False, popen=False):
             ctx.prove(not sl, "timeout0-never-sleeps")
         if tmo == "sym":
             ctx.prove(ctx.implies(ctx.eq(timeout, 0), len(sl) == 0), "timeout0-never-sleeps")
+
+
+@harness("C15.two_waiters", quick=[dict(b="sym"), dict(b="zero")], timeout_ms=5000)
+def two_waiters(ctx, b):
+    """two threads on ONE Process object: A blocks in wait() (no timeout); while it is blocked, B calls wait(timeout) with a deadline
+    that passes while the child is still running.  B gets TimeoutExpired within one poll of its deadline (timeout=0: without
+    sleeping) -- it does not wait for A -- and A gets the exit status."""
+    from psv import sched
+
+    k = simk.Kernel(ctx)
+    simk.system_files(k)
+    simk.full_process(k, 77)
+    w = World(ctx, k, 77, "", "child", True, None)
+    tb = 0 if b == "zero" else ctx.real("timeout_b", 0, F(1, 10))
+    ctx.assume(tb + CAP < w.E)            # the child outlives B's deadline by more than one poll
+    patches, _ = install_world(k, [w])
+    S = sched.Scheduler(ctx, budget=0)
+    mark = {}
+
+    def on_block():
+        if S.current == 0 and 1 not in S.done:
+            S.switch_to(1, reason="A is blocked in waitpid()")
+
+    k.on_block = on_block
+
+    def body_b():
+        mark["start"], mark["nsleeps"] = k.now, len(k.sleeps)
+        try:
+            return ("returned", p.wait(tb if b == "zero" else tb))
+        except _common.TimeoutExpired as e:
+            return ("timeout", e)
+        finally:
+            mark["end"], mark["slept"] = k.now, len(k.sleeps) - mark["nsleeps"]
+
+    with k.installed(extra=patches + [(psutil, "threading", sched.ThreadingProxy(S))]):
+        p = psutil.Process(77)
+        w.t0, w.started = k.now, True
+        res = S.run([lambda: p.wait(), body_b])
+    ctx.prove(res[0][0] == "ok" and ctx.eq(res[0][1], w.expected()), "returns-exit-status", detail=f"thread A (blocking wait()): {res[0]!r}")
+    ctx.prove(res[1][0] == "ok" and res[1][1][0] == "timeout", "timeout-only-if-alive-at-last-poll", detail=f"thread B wait({tb}) while the child runs and A is blocked in wait(): {res[1]!r}")
+    if "end" in mark:
+        ctx.prove(mark["end"] - mark["start"] <= tb + CAP, "timeout-at-most-one-poll-late", detail="thread B")
+        if b == "zero":
+            ctx.prove(mark["slept"] == 0, "timeout0-never-sleeps", detail="thread B")
 
 
 @harness("C15.wait_procs", quick=[dict(n=2, tmo="zero", tmax="0", shape="iterator"), dict(n=2, tmo="zero", tmax="0", shape="duplicate"), dict(n=1, tmo="sym", tmax="15/100"), dict(n=2, tmo="sym", tmax="1/1000"), dict(n=2, tmo="zero", tmax="0"), dict(n=2, tmo="sym", tmax="1/10", never_exit=True),
